@@ -163,6 +163,12 @@ func (m *Memberlist) VerifSequenceNum() uint32 {
 	return atomic.LoadUint32(&m.sequenceNum)
 }
 
+// VerifSetSequenceNum moves the probe sequence counter (to start a scenario
+// close to the uint32 wrap-around). Only meaningful while no probe is pending.
+func (m *Memberlist) VerifSetSequenceNum(v uint32) {
+	atomic.StoreUint32(&m.sequenceNum, v)
+}
+
 // VerifSuspicion wraps the unexported suspicion timer.
 type VerifSuspicion struct{ s *suspicion }
 
